@@ -109,6 +109,42 @@ def nextSeed (ip : Bytes) (port : Nat) (data : Bytes) : Option Addr :=
       else some a
   | _ => none
 
+theorem nextSeed_iff (ip : Bytes) (port : Nat) (data : Bytes) (a : Addr) :
+    nextSeed ip port data = some a ↔
+      ∃ page, parsePage.run data = .ok page ∧ page.getLast? = some a
+        ∧ ¬(ipText a.1 = zeroIp ∧ a.2 = 0) ∧ ¬(ipText a.1 = ip ∧ a.2 = port) := by
+  unfold nextSeed
+  cases hp : parsePage.run data with
+  | err k => simp
+  | crash => simp
+  | ok page =>
+    simp only [Res.ok.injEq, exists_eq_left']
+    generalize page.getLast? = o
+    cases o with
+    | none => simp
+    | some last =>
+      simp only [Option.some.injEq]
+      have b1 : (ipText last.1 == zeroIp && last.2 == 0) = true ↔ (ipText last.1 = zeroIp ∧ last.2 = 0) := by simp
+      have b2 : (ipText last.1 == ip && last.2 == port) = true ↔ (ipText last.1 = ip ∧ last.2 = port) := by simp
+      by_cases h1 : (ipText last.1 == zeroIp && last.2 == 0) = true
+      · simp only [h1, ↓reduceIte]
+        constructor
+        · intro h; cases h
+        · rintro ⟨rfl, hn, _⟩; exact absurd (b1.mp h1) hn
+      · simp only [h1]
+        by_cases h2 : (ipText last.1 == ip && last.2 == port) = true
+        · simp only [h2, ↓reduceIte]
+          constructor
+          · intro h; cases h
+          · rintro ⟨rfl, _, hn⟩; exact absurd (b2.mp h2) hn
+        · simp only [h2]
+          constructor
+          · intro h
+            injection h with h
+            subst h
+            exact ⟨rfl, fun h => h1 (b1.mpr h), fun h => h2 (b2.mpr h)⟩
+          · rintro ⟨rfl, _, _⟩; rfl
+
 /-- What a paging run seeded with `ip:port` does on socket `s` when `q` is what the peer will deliver and `fl` the
 send-fault flags: one request per round; the run ends with a failed send, a receive that times out, or a reply that
 calls for no follow-up; otherwise the next round is seeded with the last address of the page just received. -/
@@ -333,7 +369,7 @@ theorem nSends_send (c p : Nat) (d : Bytes) (f : Bool) (l : List Ev) : nSends (.
   simp [nSends, List.countP_cons, isSend]
 
 theorem nSends_recv (c : Nat) (sz g : Option Nat) (l : List Ev) : nSends (.recv c sz g :: l) = nSends l := by
-  simp [nSends, List.countP_cons, isSend]
+  simp [nSends, isSend]
 
 /-- a paging run sends at most one request per datagram the peer will ever deliver, plus one -/
 theorem nSends_roundsLog (s : Sock) (region : Nat) (fb : Bytes) :
